@@ -16,6 +16,11 @@ integer) and an optional inclusive upper bound: `param.Integer(default=d, bounds
 MRO of each class is data supplied with the history (`inspect.getmro` restricted to the classes of
 the history; `param.Parameterized` and its `name` parameter are outside the model).
 
+Validators that read the namespace *during* an assignment (the harness's `Nosy` Parameter kind) have
+no step of their own: a read only fills a cache with the fresh walk, which is unobservable while the
+invariant of Props/C13 holds (`nsView_eq`); the one place where it is observable on the real code is
+the recorded finding failed-add-parameter-cache-filled-by-validator.
+
 No imports other than Assoc: this file is loaded by the driver.
 -/
 import ParamVerif.Store.Assoc
